@@ -1026,6 +1026,7 @@ postfixexpr(struct scope *s, struct expr *r)
 			if (m->bits.before || m->bits.after) {
 				e = mkexpr(EXPRBITFIELD, r->type, r);
 				e->lvalue = lvalue;
+				e->qual = r->qual;
 				e->u.bitfield.bits = m->bits;
 			} else {
 				e = r;
